@@ -7,7 +7,7 @@
 (* Dotted names are SEQUENCES of identifiers (<<"pkg","client","models">>).*)
 (*                                                                         *)
 (*  1. package trees as data        MkTree, Contexts                       *)
-(*  2. PYTHON'S SEMANTICS           Resolve, Outcome, Binds  - written     *)
+(*  2. PYTHON'S SEMANTICS           Resolve, Outcome, Run    - written     *)
 (*     from the language reference (importlib._bootstrap._resolve_name),   *)
 (*     never from the code under test                                      *)
 (*  3. the collector / RenderContext as-is (q = TRUE) and as it should be  *)
@@ -37,7 +37,7 @@ ClientMods(out) ==
    Mod(out \o <<"mocks">>, TRUE), Mod(out \o <<"mocks", "endpoints">>, TRUE),
    Mod(out \o <<"mocks", "endpoints", "mock_pets">>, FALSE)}
 CoreMods(core) ==
-  {Mod(core, TRUE), Mod(core \o <<"http_transport">>, FALSE), Mod(core \o <<"exceptions">>, FALSE),
+  {Mod(core, TRUE), Mod(core \o <<"http_transport">>, FALSE), Mod(core \o <<"exceptions">>, FALSE), Mod(core \o <<"config">>, FALSE),
    Mod(core \o <<"exception_aliases">>, FALSE), Mod(core \o <<"auth">>, TRUE), Mod(core \o <<"auth", "plugins">>, FALSE)}
 
 CoreKinds(out) == IF Len(out) >= 2 THEN {"embedded", "sibling", "top"} ELSE {"embedded", "top"}
@@ -77,10 +77,10 @@ ClientCurs(out) == {Mod(out, TRUE), Mod(out \o <<"client">>, FALSE), Mod(out \o 
                     Mod(out \o <<"models", "pet">>, FALSE), Mod(out \o <<"endpoints", "pets">>, FALSE),
                     Mod(out \o <<"mocks", "endpoints", "mock_pets">>, FALSE)}
 
-ContextsOf(out) ==
+ContextsOf(out, mats) ==
   UNION {
-     {MkCx(out, kind, "context", "client", m.path, m.pkg, mat) : m \in ClientCurs(out), mat \in BOOLEAN}
-     \cup {MkCx(out, kind, "context", "core", CoreOf(out, kind) \o <<"exception_aliases">>, FALSE, mat) : mat \in BOOLEAN}
+     {MkCx(out, kind, "context", "client", m.path, m.pkg, mat) : m \in ClientCurs(out), mat \in mats}
+     \cup {MkCx(out, kind, "context", "core", CoreOf(out, kind) \o <<"exception_aliases">>, FALSE, mat) : mat \in mats}
      \cup {MkCx(out, kind, "collector", "client", m.path, m.pkg, FALSE) : m \in ClientCurs(out)}
    : kind \in CoreKinds(out)}
 
@@ -99,14 +99,26 @@ Resolve(pkg, level, tail) ==
 \* A rendered statement: [kind : "from" | "import", level, tail, names : SUBSET STRING, grp, cond, idx]
 StmtModule(cx, s) == IF s.kind = "import" THEN [ok |-> TRUE, mod |-> s.tail] ELSE Resolve(PkgOf(cx.cur, cx.curpkg), s.level, s.tail)
 
-\* what happens when the statement executes at the top of module cx.cur (every module of the tree answers every
-\* attribute; a module being initialised has no attributes yet)
-Outcome(cx, s) ==
+\* What happens when the block executes, statement by statement, at the top of module cx.cur (every module of the tree
+\* answers every attribute).  `ns` = the names the earlier statements bound in cx.cur, with the module they came from:
+\* the module itself is only partially initialised while its body runs, so `from <itself> import n` finds n only if an
+\* earlier statement already bound it.
+Outcome(cx, s, ns) ==
   LET r == StmtModule(cx, s) IN
   IF ~r.ok THEN "beyond"
   ELSE IF r.mod \notin Universe(cx.tree) THEN "notfound"
-  ELSE IF r.mod = cx.cur /\ s.kind = "from" THEN "self"
+  ELSE IF r.mod = cx.cur /\ s.kind = "from" /\ ~(s.names \subseteq {b.n : b \in ns}) THEN "self"
   ELSE "ok"
+RECURSIVE RunBlock(_, _, _, _)
+RunBlock(cx, S, i, acc) ==      \* S : Seq(statement); acc = [outs : Seq(outcome), ns : set of [n, t]]
+  IF i > Len(S) THEN acc
+  ELSE LET s == S[i]
+           o == IF s.cond # "" THEN "skipped" ELSE Outcome(cx, s, acc.ns)
+           t == StmtModule(cx, s).mod
+           ns2 == IF o = "ok" /\ s.kind = "from" /\ t # cx.cur
+                  THEN {b \in acc.ns : b.n \notin s.names} \cup {[n |-> n, t |-> t] : n \in s.names} ELSE acc.ns
+       IN RunBlock(cx, S, i + 1, [outs |-> Append(acc.outs, o), ns |-> ns2])
+Run(cx, S) == RunBlock(cx, S, 1, [outs |-> <<>>, ns |-> {}])
 
 \* one provider per (statement, imported name); `import a.b` provides the module itself under the name ""
 Providers(cx, stmts) ==
@@ -114,12 +126,6 @@ Providers(cx, stmts) ==
          IF s.kind = "import" THEN {[t |-> s.tail, ok |-> TRUE, n |-> "", idx |-> s.idx, level |-> 0, cond |-> s.cond, kind |-> "import"]}
          ELSE {[t |-> r.mod, ok |-> r.ok, n |-> n, idx |-> s.idx, level |-> s.level, cond |-> s.cond, kind |-> "from"] : n \in s.names}
          : s \in stmts}
-
-\* the namespace after the block ran (unconditional statements, later statements win): name -> module it came from
-Binds(cx, stmts) ==
-  LET P == {p \in Providers(cx, stmts) : p.cond = "" /\ p.kind = "from" /\ p.ok /\ p.t \in Universe(cx.tree) /\ p.t # cx.cur}
-      N == {p.n : p \in P} IN
-  {[n |-> n, t |-> (CHOOSE p \in P : p.n = n /\ \A p2 \in P : p2.n = n => p2.idx <= p.idx).t] : n \in N}
 
 \* ------------------------------------------------------------------ 3. the collector
 \* what the CODE believes is standard library (context/import_collector.py COMMON_STDLIB) - as-is side only
@@ -181,9 +187,18 @@ TypeAdd(cx, st, ids, quals, q) ==
       words == IF quals = {} THEN ids ELSE ids \ ({"date", "datetime"} \cup {"datetime"})
       known == IF q THEN CodeTyping ELSE PyTyping
       s2 == FoldSet(LAMBDA x, acc : ColAdd(acc, <<"typing">>, x), s1, words \cap known)
+      \* (the model's own module is recognised before add_import completes "incomplete" paths)
       s3 == FoldSet(LAMBDA x, acc : CtxAdd(cx, acc, cx.pkgname \o <<"models", Models[x]>>, x, q), s2,
-                    (words \ known) \cap DOMAIN Models)
+                    {x \in (words \ known) \cap DOMAIN Models : cx.pkgname \o <<"models", Models[x]>> # cx.cur})
   IN IF q \/ quals = {} THEN s3 ELSE [s3 EXCEPT !.plain = @ \cup {<<"datetime">>}]
+
+\* RenderContext.get_core_import_path(submodule) and the import of `name` from the path it answers.  As-is: a core
+\* package name with a dot is absolute, otherwise a file-system relative path from the current directory to
+\* <project root>/<core>/<submodule> is turned into dots (_calculate_relative_core_path).  As it should be: a relative
+\* import cannot leave the top-level package, so a core outside it is absolute.
+CorePathAdd(cx, st, sub, n, q) ==
+  LET tp == cx.core \o sub  dir == PkgOf(cx.cur, cx.curpkg)  rel == RelDir(dir, tp) IN
+  IF q /\ Len(cx.core) = 1 THEN [st EXCEPT !.rel = @ \cup {<<rel.level, rel.tail, n>>}] ELSE ColAdd(st, tp, n)
 
 \* A call: [op, mod, name, level, ids, quals, text]   (every field always present)
 Apply(cx, st, c, q) ==
@@ -191,6 +206,7 @@ Apply(cx, st, c, q) ==
     [] c.op = "ctx_plain"    -> [st EXCEPT !.plain = @ \cup {c.mod}]
     [] c.op = "ctx_type"     -> TypeAdd(cx, st, c.ids, c.quals, q)
     [] c.op = "ctx_cond"     -> [st EXCEPT !.cond = @ \cup {<<c.text, Complete(cx, c.mod, q), c.name>>}]
+    [] c.op = "ctx_core_path" -> CorePathAdd(cx, st, c.mod, c.name, q)
     [] c.op = "col_import"   -> ColAdd(st, c.mod, c.name)
     [] c.op = "col_relative" -> [st EXCEPT !.rel = @ \cup {<<c.level, c.mod, c.name>>}]
     [] c.op = "col_typing"   -> ColAdd(st, <<"typing">>, c.name)
@@ -239,25 +255,27 @@ Render(cx, st0, render, q) ==
   IN Number(froms \cup plains \cup conds)
 
 \* ------------------------------------------------------------------ 4. what is asked for
+\* why = the method that asked ("guard": the TYPE_CHECKING name a conditional block needs)
 Req(t, n, cond, why) == [t |-> t, n |-> n, cond |-> cond, why |-> why]
 Intent(cx, c) ==
-  CASE c.op = "ctx_import"   -> {Req(Complete(cx, c.mod, FALSE), c.name, "", "call")}
-    [] c.op = "ctx_plain"    -> {Req(c.mod, "", "", "call")}
-    [] c.op = "col_plain"    -> {Req(c.mod, "", "", "call")}
-    [] c.op = "col_import"   -> {Req(c.mod, c.name, "", "call")}
-    [] c.op = "col_typing"   -> {Req(<<"typing">>, c.name, "", "call")}
-    [] c.op = "col_relative" -> {Req(Resolve(PkgOf(cx.cur, cx.curpkg), c.level, c.mod).mod, c.name, "", "call")}
-    [] c.op = "ctx_cond"     -> {Req(Complete(cx, c.mod, FALSE), c.name, c.text, "call")}
+  CASE c.op = "ctx_import"   -> {Req(Complete(cx, c.mod, FALSE), c.name, "", c.op)}
+    [] c.op = "ctx_core_path" -> {Req(cx.core \o c.mod, c.name, "", c.op)}
+    [] c.op = "ctx_plain"    -> {Req(c.mod, "", "", c.op)}
+    [] c.op = "col_plain"    -> {Req(c.mod, "", "", c.op)}
+    [] c.op = "col_import"   -> {Req(c.mod, c.name, "", c.op)}
+    [] c.op = "col_typing"   -> {Req(<<"typing">>, c.name, "", c.op)}
+    [] c.op = "col_relative" -> {Req(Resolve(PkgOf(cx.cur, cx.curpkg), c.level, c.mod).mod, c.name, "", c.op)}
+    [] c.op = "ctx_cond"     -> {Req(Complete(cx, c.mod, FALSE), c.name, c.text, c.op)}
                                 \cup (IF c.text = "TYPE_CHECKING" THEN {Req(<<"typing">>, "TYPE_CHECKING", "", "guard")} ELSE {})
-    [] c.op = "ctx_type"     -> {Req(<<"typing">>, x, "", "type") : x \in c.ids \cap PyTyping}
-                                \cup {Req(cx.pkgname \o <<"models", Models[x]>>, x, "", "type") : x \in (c.ids \ PyTyping) \cap DOMAIN Models}
-                                \cup (IF c.quals # {} THEN {Req(<<"datetime">>, "", "", "type")} ELSE {})
+    [] c.op = "ctx_type"     -> {Req(<<"typing">>, x, "", c.op) : x \in c.ids \cap PyTyping}
+                                \cup {Req(cx.pkgname \o <<"models", Models[x]>>, x, "", c.op) : x \in (c.ids \ PyTyping) \cap DOMAIN Models}
+                                \cup (IF c.quals # {} THEN {Req(<<"datetime">>, "", "", c.op)} ELSE {})
 Reqs(cx, calls) == UNION {Intent(cx, c) : c \in calls}
 
 \* ------------------------------------------------------------------ 5. the judge
 TargetKind(cx, m) == IF Pfx(cx.core, m) THEN "core" ELSE IF m = cx.tree.out THEN "root" ELSE IF Pfx(cx.tree.out, m) THEN "internal" ELSE "external"
-Locus(cx, render, target, form, got, delta, name) ==
-  [api |-> cx.api, render |-> render, target |-> target, form |-> form, got |-> got, delta |-> delta, name |-> name]
+Locus(cx, render, via, target, form, got, delta, name) ==
+  [api |-> cx.api, render |-> render, via |-> via, cur |-> IF cx.curpkg THEN "package" ELSE "module", target |-> target, form |-> form, got |-> got, delta |-> delta, name |-> name]
 Form(p) == IF p.kind = "import" THEN "plain" ELSE IF p.level = 0 THEN "absolute" ELSE "relative"
 Got(cx, p) == IF ~p.ok THEN "beyond_top" ELSE IF p.t \notin Universe(cx.tree) THEN "nonexistent" ELSE IF p.t = cx.cur THEN "self" ELSE "other_module"
 Delta(cx, p, r) == IF ~p.ok THEN "" ELSE IF p.t = cx.tree.out \o r.t THEN "root_prepended"
@@ -271,25 +289,30 @@ Judge(cx, reqs0, stmts, render) ==
       unsat == {r \in reqs : ~\E p \in P : Sat(p, r)}
       orphan == {p \in P : ~\E r \in reqs : Sat(p, r)}                    \* statements nobody asked for
       cand(r) == {p \in orphan : p.n = r.n /\ p.cond = r.cond /\ (p.kind = "import") = (r.n = "")}
-      one(S) == CHOOSE p \in S : \A p2 \in S : p.idx <= p2.idx
+      first(S) == CHOOSE p \in S : \A p2 \in S : p.idx <= p2.idx
+      \* the candidate that explains the request best: one whose module is the asked module with something prepended
+      one(S, r) == LET near == {p \in S : Delta(cx, p, r) \notin {"", "other"}} IN IF near # {} THEN first(near) ELSE first(S)
       name(r) == IF r.n = "" THEN r.t[Len(r.t)] ELSE r.n
       \* resolves / core_form / typing_complete / no_loss
       A == {LET C == cand(r)
-                cl == IF r.why = "type" THEN "typing_complete" ELSE IF C = {} THEN "no_loss" ELSE IF Pfx(cx.core, r.t) THEN "core_form" ELSE "resolves" IN
+                cl == IF r.why = "ctx_type" THEN "typing_complete" ELSE IF C = {} THEN "no_loss" ELSE IF Pfx(cx.core, r.t) THEN "core_form" ELSE "resolves" IN
             [clause |-> cl,
-             locus |-> IF C = {} THEN Locus(cx, render, TargetKind(cx, r.t), IF r.n = "" THEN "plain" ELSE "", "missing", "", IF r.why = "type" \/ TargetKind(cx, r.t) = "external" THEN name(r) ELSE "")
-                       ELSE Locus(cx, render, TargetKind(cx, r.t), Form(one(C)), Got(cx, one(C)), Delta(cx, one(C), r), IF r.why = "type" THEN name(r) ELSE "")]
+             locus |-> IF C = {} THEN Locus(cx, render, r.why, TargetKind(cx, r.t), IF r.n = "" THEN "plain" ELSE "", "missing", "", IF r.why = "ctx_type" \/ TargetKind(cx, r.t) = "external" THEN name(r) ELSE "")
+                       ELSE Locus(cx, render, r.why, TargetKind(cx, r.t), Form(one(C, r)), Got(cx, one(C, r)), Delta(cx, one(C, r), r), IF r.why = "ctx_type" THEN name(r) ELSE "")]
             : r \in unsat}
       \* no_spurious: a statement on a module of the tree (or on a module that does not exist) that answers no request
       \* and is not the (mis-resolved) answer to an unsatisfied one
-      B == {[clause |-> "no_spurious", locus |-> Locus(cx, render, "", Form(p), Got(cx, p), "", p.n)]
+      deltaAny(p) == LET R == {r \in reqs0 \cup {Req(cx.cur, p.n, "", "self")} : r.n = p.n /\ Delta(cx, p, r) \notin {"", "other"}} IN
+                     IF R = {} THEN "other" ELSE Delta(cx, p, CHOOSE r \in R : TRUE)
+      B == {[clause |-> "no_spurious", locus |-> Locus(cx, render, "", "", Form(p), Got(cx, p), deltaAny(p), p.n)]
             : p \in {x \in orphan : x.t # cx.cur /\ x.t \notin ExtMods /\ ~\E r \in unsat : x \in cand(r)}}
       \* within_top: no relative import climbs above the top-level package
-      W == {[clause |-> "within_top", locus |-> Locus(cx, render, "", "relative", "beyond_top", "", "")] : p \in {x \in P : ~x.ok}}
+      viaOf(p) == LET R == {r \in reqs0 : r.n = p.n} IN IF R = {} THEN "" ELSE (CHOOSE r \in R : TRUE).why
+      W == {[clause |-> "within_top", locus |-> Locus(cx, render, viaOf(p), "", "relative", "beyond_top", "", "")] : p \in {x \in P : ~x.ok}}
       \* no_self
-      D == {[clause |-> "no_self", locus |-> Locus(cx, render, "", Form(p), "self", "", "")] : p \in {x \in P : x.ok /\ x.t = cx.cur /\ x.kind = "from" /\ x.cond = ""}}
+      D == {[clause |-> "no_self", locus |-> Locus(cx, render, "", "", Form(p), "self", "", "")] : p \in {x \in P : x.ok /\ x.t = cx.cur /\ x.kind = "from" /\ x.cond = ""}}
       \* once
-      E == {[clause |-> "once", locus |-> Locus(cx, render, "", IF pp[1].level = 0 \/ pp[2].level = 0 THEN (IF pp[1].level = pp[2].level THEN "absolute+absolute" ELSE "absolute+relative") ELSE "relative+relative", "duplicate", "", "")]
+      E == {[clause |-> "once", locus |-> Locus(cx, render, "", "", IF pp[1].level = 0 \/ pp[2].level = 0 THEN (IF pp[1].level = pp[2].level THEN "absolute+absolute" ELSE "absolute+relative") ELSE "relative+relative", "duplicate", "", "")]
             : pp \in {x \in P \X P : x[1].idx < x[2].idx /\ x[1].ok /\ x[2].ok /\ x[1].t = x[2].t /\ x[1].n = x[2].n /\ x[1].cond = x[2].cond /\ x[1].kind = x[2].kind}}
       \* grouped: the order of the kinds of statements the docstrings promise; __future__ before everything else
       U == {s \in stmts : s.cond = ""}
@@ -297,11 +320,11 @@ Judge(cx, reqs0, stmts, render) ==
                   ELSE IF s.kind = "import" THEN 2 ELSE IF s.level = 0 THEN 1 ELSE 3
       fut(s) == s.kind = "from" /\ s.level = 0 /\ s.tail = <<"__future__">>
       F == (IF \E s1 \in U, s2 \in U : s1.idx < s2.idx /\ ~fut(s1) /\ ~fut(s2) /\ class(s1) > class(s2)
-            THEN {[clause |-> "grouped", locus |-> Locus(cx, render, "", "", "kind_order", "", "")]} ELSE {})
+            THEN {[clause |-> "grouped", locus |-> Locus(cx, render, "", "", "", "kind_order", "", "")]} ELSE {})
            \cup (IF render # "get_import_statements" /\ \E s1 \in U, s2 \in U : s1.grp = s2.grp /\ ~fut(s1) /\ ~fut(s2) /\ class(s1) # class(s2)
-            THEN {[clause |-> "grouped", locus |-> Locus(cx, render, "", "", "mixed_block", "", "")]} ELSE {})
+            THEN {[clause |-> "grouped", locus |-> Locus(cx, render, "", "", "", "mixed_block", "", "")]} ELSE {})
            \cup (IF \E s1 \in U, s2 \in U : s1.idx < s2.idx /\ ~fut(s1) /\ fut(s2)
-            THEN {[clause |-> "grouped", locus |-> Locus(cx, render, "external", "absolute", "future_not_first", "", "__future__")]} ELSE {})
+            THEN {[clause |-> "grouped", locus |-> Locus(cx, render, "", "external", "absolute", "future_not_first", "", "__future__")]} ELSE {})
   IN A \cup B \cup W \cup D \cup E \cup F
 
 Clauses == {"resolves", "core_form", "typing_complete", "no_loss", "no_spurious", "within_top", "no_self", "once", "grouped"}
@@ -329,6 +352,7 @@ Pool(cx) ==
               C2("ctx_plain", <<"collections", "abc">>, ""), C2("ctx_import", <<"__future__">>, "annotations")}
       cor == {C2("ctx_import", core, "HTTPError"), C2("ctx_import", core \o <<"http_transport">>, "HttpTransport"),
               C2("ctx_import", core \o <<"auth", "plugins">>, "ApiKeyAuth")}
+      cpath == {C2("ctx_core_path", <<"config">>, "ClientConfig")}
       int == {C2("ctx_import", out \o <<"models", "pet">>, "Pet"), C2("ctx_import", out \o <<"models", "owner">>, "Owner"),
               C2("ctx_import", out \o <<"models", "owner">>, "Pet"), C2("ctx_import", out \o <<"models">>, "Thing"),
               C2("ctx_import", out \o <<"endpoints", "pets">>, "PetsClient"), C2("ctx_import", out \o <<"client">>, "APIClient"),
@@ -336,11 +360,17 @@ Pool(cx) ==
               C2("ctx_import", out \o <<"models", "owner">>, ""),
               Call("ctx_cond", out \o <<"models", "pet">>, "Pet", 0, {}, {}, "TYPE_CHECKING")}
               \cup (IF Len(out) >= 2 THEN {C2("ctx_import", Tail(out) \o <<"models", "pet">>, "Pet")} ELSE {})
-      \* relative imports handed straight to the collector (client_visitor does that); only well-formed ones
+      \* relative imports handed straight to the collector (client_visitor does that); only well-formed ones (through a
+      \* RenderContext also never the module itself: add_import is the guarded way in; the bare collector is told its
+      \* current module and its get_import_statements says it leaves self-imports out; and spelled the way RenderContext
+      \* spells the module - the collector keys on the spelling)
       rel == {c \in {Call("col_relative", <<"endpoints", "pets">>, "PetsClient", 1, {}, {}, ""),
                      Call("col_relative", <<"models", "pet">>, "Pet", 2, {}, {}, ""),
                      Call("col_relative", <<"owner">>, "Owner", 1, {}, {}, "")} :
-                LET r == Resolve(PkgOf(cx.cur, cx.curpkg), c.level, c.mod) IN r.ok /\ r.mod \in Paths(cx.tree)}
+                LET r == Resolve(PkgOf(cx.cur, cx.curpkg), c.level, c.mod) IN
+                /\ r.ok /\ r.mod \in Paths(cx.tree)
+                /\ cx.api = "context" => /\ r.mod # cx.cur
+                                         /\ RelFile(PkgOf(cx.cur, cx.curpkg), r.mod) = [level |-> c.level, tail |-> c.mod]}
       typ == {Call("ctx_type", <<>>, "", 0, ty[2], ty[3], ty[1]) : ty \in Types}
       col == {C2("col_import", out \o <<"models", "pet">>, "Pet"), C2("col_import", out \o <<"models", "owner">>, "Owner"),
               C2("col_import", out \o <<"models">>, "Thing"), C2("col_import", out \o <<"endpoints", "pets">>, "PetsClient"),
@@ -350,7 +380,7 @@ Pool(cx) ==
               C2("col_plain", <<"os">>, ""), C2("col_plain", <<"collections", "abc">>, "")}
   IN IF cx.api = "collector" THEN col \cup rel
      ELSE IF cx.where = "core" THEN ext \cup cor \cup {c \in typ : c.ids \cap DOMAIN Models = {}}
-     ELSE ext \cup cor \cup int \cup rel \cup typ
+     ELSE ext \cup cor \cup cpath \cup int \cup rel \cup typ
 
 Renders(cx) == IF cx.api = "context" THEN {"render_imports"} ELSE {"get_import_statements", "get_formatted_imports"}
 =============================================================================
